@@ -224,9 +224,34 @@ def loop_heads(body):
             after = body[p + 3:p + 6]
             if after.lstrip().startswith('<'):
                 continue
-        # first '{' at the same paren depth after the keyword
+        # first '{' at the same paren depth after the keyword -- but not a brace of the PATTERN of `while let P = e {` / `for P in e {`
         k = p + len(kw)
         n = len(body)
+        ml = re.match(r'\s*let\b', body[k:]) if kw == 'while' else None
+        if ml:
+            j = k + ml.end()
+            while j < n:
+                if m[j]:
+                    c = body[j]
+                    if c in '([{':
+                        j = match_close(body, m, j) + 1
+                        continue
+                    if c == '=' and body[j + 1:j + 2] != '=':
+                        k = j + 1
+                        break
+                j += 1
+        elif kw == 'for':
+            j = k
+            while j < n:
+                if m[j]:
+                    c = body[j]
+                    if c in '([{':
+                        j = match_close(body, m, j) + 1
+                        continue
+                    if re.match(r'in\b', body[j:]) and not (body[j - 1].isalnum() or body[j - 1] == '_'):
+                        k = j + 2
+                        break
+                j += 1
         ob = None
         while k < n:
             if m[k]:
@@ -433,7 +458,9 @@ def build_fn(block, orig, canary=False, mutant=None):
                 raise GenError('fn %s: loop %d not found (%d loops)' % (block.name, k, len(heads)))
             ins.append((heads[k - 1][1], 0, '\n' + '\n'.join(lines) + '\n'))
         for where, lines in block.at:
-            txt = '\n' + '\n'.join(lines) + '\n'
+            # every line of a proof hint carries the marker /*@H*/ so that a failure located on it can be told apart from a
+            # failure of a contract clause or of the real code (a failing hint means "the proof script does not apply")
+            txt = '\n' + '\n'.join((l + ' /*@H*/') if l.strip() else l for l in lines) + '\n'
             if where == 'prologue':
                 ins.append((1, 1, txt))
                 continue
@@ -563,6 +590,8 @@ def generate(tpl_path, repo, canary=False, mutant=None):
     for i, l in enumerate(text.split('\n'), 1):
         for lab in re.findall(r'/\*\[([A-Za-z0-9_\.\-, ]+)\]\*/', l):
             meta['labels'].setdefault(str(i), []).extend([x.strip() for x in lab.split(',')])
+        if '/*@H*/' in l:
+            meta.setdefault('hint_lines', []).append(i)
         mm = re.search(r'/\*@CANARY (\S+) (\S+)@\*/', l)
         if mm:
             meta['canaries'][str(i)] = [mm.group(1), mm.group(2)]
